@@ -200,7 +200,7 @@ def lifecycle(F, X, A):
     L.height = [c for c in cs if c.is_trait_method("block_watcher::BlockProvider", "current_height")]
     L.notify = [c for c in cs if c.is_trait_method("email::NotificationService", "notify_payment_failed")]
     L.sleep = [c for c in cs if c.name == "tokio::time::sleep"]
-    L.recv = [c for c in cs if c.name == "tokio::sync::mpsc::Receiver::recv"]
+    L.recv = [c for c in cs if re.match(r"^tokio::sync::mpsc::(Receiver|UnboundedReceiver)::(recv|try_recv|recv_many|blocking_recv|poll_recv)$", c.name)]
     L.recv_fail = [c for c in L.recv if "HtlcAcceptedResponse" in c.full]
     L.recv_ready = [c for c in L.recv if "Receiver::<()>" in c.full]
     L.lock = [c for c in cs if c.name == "tokio::sync::Mutex::lock"]
